@@ -3,9 +3,9 @@ package c05
 import (
 	"fmt"
 
-	"github.com/moov-io/base/log"
 	"github.com/moov-io/ach"
 	"github.com/moov-io/ach/server"
+	"github.com/moov-io/base/log"
 	"verif/harness/gen"
 	. "verif/harness/oracle"
 )
